@@ -12,6 +12,7 @@ import (
 	"fmt"
 	"image"
 	_ "image/gif"
+	"net/url"
 	"os"
 	"path/filepath"
 	"sort"
@@ -24,6 +25,7 @@ import (
 	"perkeep.org/pkg/index"
 	"perkeep.org/pkg/jsonsign"
 	"perkeep.org/pkg/schema"
+	"perkeep.org/pkg/sorted"
 	"perkeep.org/pkg/test"
 )
 
@@ -151,6 +153,10 @@ type Spec struct {
 
 	sizeGiven int // opaque: the size asked for (Size is overwritten by a rebuild)
 
+	// derived: which rows of a claim no sorted.KeyValue stores because their key or value is too large
+	// (bit 0 claim|, 1 signerattrvalue|, 2 path|, 3 signertargetpath|)
+	Drop int
+
 	// derived by building the real blob (the def line carries them; the exec verifies them)
 	Size  int
 	Mime  string // meta row MIME of non-schema blobs; file: the file's MIME type
@@ -201,7 +207,14 @@ func AttrString(tok string) (string, bool) {
 	return "", false
 }
 
+// LongBase: value and suffix tokens from LongBase on denote a run of LongBase-less-n bytes ("x" / "y"):
+// rows whose key or value outgrow sorted.MaxKeySize / sorted.MaxValueSize.
+const LongBase = 100000
+
 func SuffixString(n int) string {
+	if n >= LongBase {
+		return strings.Repeat("y", n-LongBase)
+	}
 	if n%5 == 4 {
 		return fmt.Sprintf("dir %d|x", n) // exercises the URL escaping of key parts
 	}
@@ -209,6 +222,9 @@ func SuffixString(n int) string {
 }
 
 func ValString(n int) string {
+	if n >= LongBase {
+		return strings.Repeat("x", n-LongBase)
+	}
 	switch n % 7 {
 	case 5:
 		return fmt.Sprintf("v %d|é", n)
@@ -401,6 +417,7 @@ func (w *World) Add(s *Spec) error {
 		if tb, err = signBlob(sg, bb); err != nil {
 			return err
 		}
+		s.Drop = claimDropMask(tb, sg, pn.String(), s.CType, attr, val)
 	case "del":
 		sg, err := signerOf(s.Signer)
 		if err != nil {
@@ -589,7 +606,7 @@ func (s *Spec) DefLine() string {
 	case "pn":
 		return fmt.Sprintf("def %d pn %d %d %d", s.ID, s.Signer, s.Nonce, s.Size)
 	case "claim":
-		return fmt.Sprintf("def %d claim %d %d %s %s %s %d %d", s.ID, s.Signer, s.PN, s.CType, s.Attr, s.Val, s.Date, s.Size)
+		return fmt.Sprintf("def %d claim %d %d %s %s %s %d %d %d", s.ID, s.Signer, s.PN, s.CType, s.Attr, s.Val, s.Date, s.Size, s.Drop)
 	case "del":
 		return fmt.Sprintf("def %d del %d %d %d %d", s.ID, s.Signer, s.Target, s.Date, s.Size)
 	case "bytes":
@@ -666,8 +683,8 @@ func parseIDs(tok string) ([]int, bool) {
 
 // claimed holds the derived fields a def line asserts; the exec compares them with the built blob.
 type claimed struct {
-	Size, FSize, Whole, ImgW, ImgH int
-	Mime                          string
+	Size, FSize, Whole, ImgW, ImgH, Drop int
+	Mime                                 string
 }
 
 // ParseDef parses the words of a def line (without the leading "def").
@@ -716,9 +733,10 @@ func ParseDef(ws []string) (*Spec, *claimed, bool) {
 		}
 		s.Signer, s.Nonce, c.Size = num(0), num(1), num(2)
 	case "claim":
-		if !want(7) {
+		if !want(8) {
 			return nil, nil, false
 		}
+		c.Drop = num(7)
 		s.Signer, s.PN = num(0), num(1)
 		s.CType, s.Attr, s.Val = a[2], a[3], a[4]
 		s.Date, c.Size = int64(num(5)), num(6)
@@ -849,4 +867,45 @@ func (w *World) SortedIDs() []int {
 	ids := append([]int(nil), w.Order...)
 	sort.Ints(ids)
 	return ids
+}
+
+// claimDropMask computes, from the sizes of the keys and values that keys.go prescribes for an
+// attribute claim, which of its rows exceed sorted.MaxKeySize / sorted.MaxValueSize.
+func claimDropMask(tb *test.Blob, sg *signer, pn, ctype, attr, val string) int {
+	sb, err := schema.BlobFromReader(tb.BlobRef(), strings.NewReader(tb.Contents))
+	if err != nil {
+		return 0
+	}
+	cl, ok := sb.AsClaim()
+	if !ok {
+		return 0
+	}
+	date := cl.ClaimDateString()
+	ref, signerRef, keyID := tb.BlobRef().String(), sg.ref.String(), sg.keyID
+	q := url.QueryEscape
+	rt := len(date) + 2
+	over := func(keyLen, valLen int) bool { return keyLen > sorted.MaxKeySize || valLen > sorted.MaxValueSize }
+	ctName := map[string]string{"set": "set-attribute", "add": "add-attribute", "del": "del-attribute"}[ctype]
+	mask := 0
+	if over(len("claim|")+len(pn)+1+len(keyID)+1+len(date)+1+len(ref),
+		len(q(ctName))+1+len(q(attr))+1+len(q(val))+1+len(signerRef)) {
+		mask |= 1
+	}
+	if ctype != "del" && index.IsIndexedAttribute(attr) {
+		if over(len("signerattrvalue|")+len(keyID)+1+len(q(attr))+1+len(q(val))+1+rt+1+len(ref), len(pn)) {
+			mask |= 2
+		}
+	}
+	if suffix, ok := strings.CutPrefix(attr, "camliPath:"); ok {
+		if target, ok := blob.Parse(val); ok {
+			t := target.String()
+			if over(len("path|")+len(keyID)+1+len(pn)+1+len(q(suffix))+1+rt+1+len(ref), 1+1+len(t)) {
+				mask |= 4
+			}
+			if over(len("signertargetpath|")+len(keyID)+1+len(t)+1+len(ref), len(date)+1+len(pn)+1+1+1+len(q(suffix))) {
+				mask |= 8
+			}
+		}
+	}
+	return mask
 }
